@@ -18,9 +18,13 @@ From PBC Require Import Impl.Desc Impl.Mem Impl.Pack Impl.Unpack Impl.Canon Impl
 Import ListNotations.
 Local Open Scope Z_scope.
 
+(* The bound on the serialisation, 268435425 = 2 * 134217712 + 1 bytes (Impl/Unpack.v: max_input), is where acceptance
+   can be promised: protobuf_c_message_unpack reports "too many fields" at the 134217713th member of one message (its 23
+   slabs of scanned members hold 16 * (2^23 - 1) = 134217712; unpack has that test), and every member takes at least two
+   bytes (Proofs/MemberCount.v), so no input up to that size gets there. *)
 Theorem C01_pack_unpack_roundtrip : forall (E : env) (m : msg) (b : list Z),
   env_ok E = true -> canon_msg E m = true ->
-  pack_msg E m = Ok b -> Z.of_nat (length b) <= 2147483647 ->
+  pack_msg E m = Ok b -> Z.of_nat (length b) <= 268435425 ->
   unpack_top E (m_desc m) b = Ok m.
 Proof.
   intros E m b EO C Hp Hl. unfold unpack_top.
@@ -47,7 +51,7 @@ Proof. exact pack_wnorm. Qed.
 Print Assumptions C01_serialisation_ignores_normal_form.
 
 Theorem C01_roundtrip_to_normal_form : forall (E : env), env_ok E = true -> forall m b,
-  canon_msg E (wnorm_msg E m) = true -> pack_msg E m = Ok b -> Z.of_nat (length b) <= 2147483647 ->
+  canon_msg E (wnorm_msg E m) = true -> pack_msg E m = Ok b -> Z.of_nat (length b) <= 268435425 ->
   unpack_top E (m_desc m) b = Ok (wnorm_msg E m).
 Proof. exact roundtrip_to_normal_form. Qed.
 Print Assumptions C01_roundtrip_to_normal_form.
@@ -71,7 +75,7 @@ Print Assumptions C01_normal_form_of_checked_well_typed_message_is_canonical.
 
 Theorem C01_roundtrip_of_every_checked_well_typed_message : forall (E : env) (m : msg) (b : list Z),
   env_ok E = true -> wf_msg E m = true -> typed_msg E m = true -> check_msg E m = Ok true ->
-  pack_msg E m = Ok b -> Z.of_nat (length b) <= 2147483647 ->
+  pack_msg E m = Ok b -> Z.of_nat (length b) <= 268435425 ->
   unpack_top E (m_desc m) b = Ok (wnorm_msg E m).
 Proof. exact checked_typed_roundtrip. Qed.
 Print Assumptions C01_roundtrip_of_every_checked_well_typed_message.
